@@ -283,7 +283,8 @@ Definition step (s : state) (e : event) : option state :=
           match r with
           | SOk => if fspace (cap_of s (p_high pd)) (chan_of tp (p_high pd))
                    then Some (enqueue s1 (p_topic pd) (p_obj pd) (p_high pd)) else None
-          | SErrChan => if p_high pd && negb (p_timed pd) && t_closed tp then Some (set_parked s1 (p_obj pd) false P0) else None
+          (* wait-forever sends of both priorities select on the topic's done channel *)
+          | SErrChan => if negb (p_timed pd) && t_closed tp then Some (set_parked s1 (p_obj pd) false P0) else None
           | STimeout => if p_timed pd then Some (set_parked s1 (p_obj pd) false P0) else None
           | _ => None
           end
